@@ -1006,7 +1006,8 @@ def is_balanced_statement(lines, only_tokens=False, reraise=0):
     """
     # Only iterate through non-empty lines otherwise tokenize will stop short
     lines = list(lines)
-    iterable = (line for line in lines if line)
+    # (a line holding only blanks stops the tokenizer just like an empty one)
+    iterable = (line for line in lines if line.strip())
     def _readline():
         return next(iterable)
     try:
